@@ -10,6 +10,7 @@ import Receptor.Drive.Aging
 import Receptor.Drive.Unreach
 import Receptor.Drive.Ads
 import Receptor.Drive.Proto
+import Receptor.Drive.Work
 /-! Line-protocol driver: one JSON request per line `{"e":engine,"op":op,"a":args,"r":impl-observation}`,
 one JSON reply per line `{"m":model-result,"prop":true|false|null,"why":…}` or `{"bad-op":…}`. -/
 open Lean Receptor.Drive
@@ -29,6 +30,8 @@ def dispatch (e op : String) (a r : Json) : Except String Reply :=
   | "unreach" => Receptor.Drive.Unreach.handle op a r
   | "ads" => Receptor.Drive.Ads.handle op a r
   | "proto" => Receptor.Drive.Proto.handle op a r
+  | "redact" => Receptor.Drive.Work.redactHandle op a r
+  | "sig" => Receptor.Drive.Work.sigHandle op a r
   | _ => throw s!"bad-op unknown engine {e}"
 
 def handleLine (line : String) : String :=
